@@ -195,7 +195,7 @@ def run(ctx):
     res.rule = ("E1 with the CA's legitimate-answer alphabet: all ordered identifier lists of size 1..2 (quick) / 1..3 (thorough) from 5 identifiers "
                 "(name, its wildcard, second name, IPv4, IPv6) x every challenge assignment; on two base sets: every authorization order, every ordered "
                 "non-empty subset of offered challenge types, every initial authorization status per identifier, 5 token shapes, 7 account key types, "
-                "challenge hook exit 0/1. Oracle: hook type per authorization, proof values recomputed from token and the JWK on record, challenge POST after hooks.")
+                "challenge hook ending with exit 0/1/255 or killed by signal 9/15. Oracle: hook type per authorization, proof values recomputed from token and the JWK on record, challenge POST after hooks.")
     reqs = []
     maxn = 2 if ctx.quick else 3
     for n in range(1, maxn + 1):
@@ -222,7 +222,8 @@ def run(ctx):
                 for coord in ("x", "y"):
                     reqs.append(make_req(S, account_kt=kt, tag="keyshape", leading_zero=coord))
         for nth in range(len(S)):
-            reqs.append(make_req(S, script=[{"kind": "hook", "tag_prefix": "chal-", "nth_hook": nth, "answer": "exit:1"}], tag="hook-exit"))
+            for ans in ("exit:1", "exit:255", "signal:9", "signal:15"):  # "succeeded" = exit code 0, not "no non-zero code"
+                reqs.append(make_req(S, script=[{"kind": "hook", "tag_prefix": "chal-", "nth_hook": nth, "answer": ans}], tag="hook-exit"))
     # hook-exit scripts need the index of the nth challenge hook: resolve with a dry run
     dry = {}
     final = []
@@ -236,7 +237,7 @@ def run(ctx):
             cps = [c for c in dry[key]["cps"] if c["kind"] == "hook" and c.get("tag", "").startswith("chal-")]
             nth = r["script"][0]["nth_hook"]
             if nth < len(cps):
-                r["script"] = [{"idx": cps[nth]["idx"], "kind": "hook", "answer": "exit:1"}]
+                r["script"] = [{"idx": cps[nth]["idx"], "kind": "hook", "answer": r["script"][0]["answer"]}]
                 final.append(r)
         else:
             final.append(r)
